@@ -26,6 +26,9 @@ From Coq Require Import String.
 From Coq Require Import List Ascii ZArith Bool Lia.
 From CGV Require Import Base.PyBase Base.PyVal Base.NxGraph Resolve.GraphOps
      Stereo.EzImpl Stereo.EzDefs Stereo.EzWitness Stereo.EzProofs.
+From CGV Require Import Resolve.Pipeline Resolve.PipelineFull Resolve.CopyProofs Compose.CutModel Compose.CutTables Compose.CutSkeleton
+     Hydro.HydroDefs Dialect.ReturnedAnnot Stereo.EzReturned.
+From CGV Require Hydro.Hydrogens Resolve.SortGraphProofs Dialect.ReturnedCar.
 Import ListNotations.
 Open Scope Z_scope.
 
@@ -172,6 +175,46 @@ Proof.
   vm_compute. repeat constructor; cbn; intuition discriminate.
 Qed.
 
+(** ---- ON THE GRAPH resolve() RETURNS (end-to-end model Resolve/PipelineFull.resolve_step_full: every stage the model
+    of its own component, one aromaticity transcript [car]).  Hypothesis kept: the sorted molecule [fo_m5] is a
+    well-formed networkx graph (evaluated on every recorded molecule by the check). *)
+Theorem C15_returned_refs_valid : forall legacy fd prev car fo, resolve_step_full legacy true fd prev car = Ok fo ->
+  wf_graph (fo_m5 fo) ->
+  forall k v, In v (ez_list (fo_mol fo) k) -> In v (ez_list (fo_m5 fo) k) \/ tuple_ok (fo_mol fo) k v = true.
+Proof. exact returned_refs_valid. Qed.
+Theorem C15_returned_symmetric : forall legacy fd prev car fo, resolve_step_full legacy true fd prev car = Ok fo ->
+  wf_graph (fo_m5 fo) ->
+  forall k v, is_new (fo_m5 fo) (fo_mol fo) k v ->
+  exists l1 a1 a2 l2 c, v = ez_tuple l1 a1 a2 l2 c /\ k = l1 /\ (c = v_cis \/ c = v_trans) /\
+                        In (ez_tuple l2 a2 a1 l1 c) (ez_list (fo_mol fo) l2).
+Proof. exact returned_symmetric. Qed.
+(** every stored class of the returned graph is [pair_result] of a pair of the sorted molecule, so the class theorems
+    above (C15_table_vs_geom, C15_class_iff_wrong, C15_order_partial, C15_class_exact) speak about what resolve() returns *)
+Theorem C15_returned_class_of_pair : forall legacy fd prev car fo, resolve_step_full legacy true fd prev car = Ok fo ->
+  forall k v, is_new (fo_m5 fo) (fo_mol fo) k v ->
+  exists ps x y c, all_pairs (fo_m5 fo) (ez_class_dict (fo_m5 fo)) = Ok ps /\ In (x, y) ps /\ pair_result (x, y) = Some c /\
+    (v = ez_tuple (s_lig x) (s_anc x) (s_anc y) (s_lig y) c \/ v = ez_tuple (s_lig y) (s_anc y) (s_anc x) (s_lig x) c).
+Proof. exact returned_class_of_pair. Qed.
+Theorem C15_returned_chiral : forall legacy fd prev car fo k, resolve_step_full legacy true fd prev car = Ok fo ->
+  node_get (fo_mol fo) k (S "chiral") = node_get (fo_m5 fo) k (S "chiral").
+Proof. exact returned_chiral. Qed.
+(** chiral_stays END TO END, for every cut placement and part order (instance of the Dialect component's theorem
+    annotation_reaches_returned_graph_any_car for the key `chiral`, over the Compose component's cut model; hypotheses:
+    well-formed cut without `!` bonds, templates as the cut says, payload with element/charge/hcount, attribute lists of
+    the molecule handed to rebuild_h_atoms are dicts): the returned key of every atom carries exactly the template atom's label *)
+Theorem C15_chiral_reaches_returned_graph : forall C, wf_cut C -> forall fd, templates_ok C fd -> wf_dict fd ->
+  forall B, is_base C B ->
+  (forall x, In x (flat C) ->
+     (exists e, aget (S "element") (payload C x) = Some e) /\ (exists q, aget (S "charge") (payload C x) = Some q) /\
+     (exists h, aget (S "hcount") (payload C x) = Some (VInt h)) /\ Hydrogens.is_H (payload C x) = false) ->
+  forall prev g1 fo, meta_of prev = B -> resolve_step_full true true fd prev (Some g1) = Ok fo -> ReturnedCar.dicts (fo_m3 fo) ->
+  exists m, sort_mapping (fo_m4 fo) = Ok m /\ SortGraphProofs.inj_on (map_get m) (node_keys (fo_m4 fo)) /\
+    forall p name xs T i x n,
+      nth_error (c_parts C) p = Some (name, xs) -> fd_get name fd = Some T ->
+      nth_error xs i = Some x -> gfind (Z.of_nat i) T = Some n ->
+      node_get (fo_mol fo) (map_get m (phi C x)) (S "chiral") = aget (S "chiral") (na n).
+Proof. exact chiral_reaches_returned_graph. Qed.
+
 (** non-vacuity: a well-formed molecule with marks on which the step succeeds and stores two tuples;
     two pairs of two variants that satisfy the hypotheses of the partial theorem *)
 Example C15_nonvacuous :
@@ -226,3 +269,8 @@ Print Assumptions C15_chiral_stays_merge.
 Print Assumptions C15_chiral_stays_annotate.
 Print Assumptions C15_relabel_copy_attrs.
 Print Assumptions C15_chiral_stays_sort.
+Print Assumptions C15_returned_refs_valid.
+Print Assumptions C15_returned_symmetric.
+Print Assumptions C15_returned_class_of_pair.
+Print Assumptions C15_returned_chiral.
+Print Assumptions C15_chiral_reaches_returned_graph.
